@@ -83,7 +83,7 @@ impl Metadata {
         (self.0.mtime_ns % 1_000_000_000) as i64
     }
     pub fn nlink(&self) -> u64 {
-        1
+        u64::from(self.0.nlink)
     }
     pub fn uid(&self) -> u32 {
         1000
@@ -591,9 +591,12 @@ pub fn copy<P: AsRef<Path>, Q: AsRef<Path>>(from: P, to: Q) -> io::Result<u64> {
     Ok(total)
 }
 
-pub fn hard_link<P: AsRef<Path>, Q: AsRef<Path>>(_a: P, _b: Q) -> io::Result<()> {
-    crate::kernel::note_unsupported("hard links");
-    Err(io::Error::new(io::ErrorKind::Unsupported, "hard links are not simulated"))
+pub fn hard_link<P: AsRef<Path>, Q: AsRef<Path>>(a: P, b: Q) -> io::Result<()> {
+    let (a, b) = (pstr(a.as_ref()), pstr(b.as_ref()));
+    flat(syscall(OpKind::Link, true, |_| true, move |st, rec| {
+        let pid = rec.pid;
+        st.sys_link(pid, &a, &b, rec)
+    }))
 }
 
 pub fn set_permissions<P: AsRef<Path>>(_p: P, _perm: Permissions) -> io::Result<()> {
